@@ -738,5 +738,164 @@ func runMirror(c *core.Ctx) []core.Obligation {
 		}
 	}
 	_ = strings.Join
+	obs = append(obs, stToUVAntisymmetric(c))
+	obs = append(obs, rawStepsArithmetic(c)...)
+	return obs
+}
+
+
+// stToUVAntisymmetric (after round-6 seed C04-r6m3, the s < 0.5 branch rewritten as the algebraically equal
+// (1/3.)*(2*s-1)*(3-2*s)): the same cube-edge point is computed on one face from s and on the neighbouring face from
+// 1-s with the axis negated. The loops of adjacent cells share that vertex only if stToUV(1-s) == -stToUV(s) holds
+// bit for bit, which the library gets from writing the lower branch as the mirror image of the upper one:
+// K*(A - B) above, K*(B' - A') below, where X' is X with s replaced by (1 - s) (x - y == -(y - x) exactly in
+// IEEE arithmetic). The two return expressions are compared in that form.
+func stToUVAntisymmetric(c *core.Ctx) core.Obligation {
+	const construct = "stToUV:branches-are-mirror-images"
+	f := c.LookupFunc("s2", "", "stToUV")
+	if f == nil || c.Decl(f) == nil {
+		return core.Ob("R-MIRROR", construct, "-", "", core.Violated, "unresolved anchor")
+	}
+	decl := c.Decl(f)
+	site := c.Pos(decl.Pos())
+	if decl.Type.Params == nil || len(decl.Type.Params.List) != 1 || len(decl.Type.Params.List[0].Names) != 1 {
+		return core.Ob("R-MIRROR", construct, site, f.FullName(), core.Violated, "unresolved anchor: one parameter expected")
+	}
+	param := decl.Type.Params.List[0].Names[0].Name
+	var upper, lower ast.Expr
+	for _, st := range decl.Body.List {
+		switch x := st.(type) {
+		case *ast.IfStmt:
+			cond, ok := x.Cond.(*ast.BinaryExpr)
+			if !ok || len(x.Body.List) != 1 {
+				continue
+			}
+			ret, ok := x.Body.List[0].(*ast.ReturnStmt)
+			if !ok || len(ret.Results) != 1 {
+				continue
+			}
+			switch cond.Op {
+			case token.GEQ, token.GTR:
+				upper = ret.Results[0]
+			case token.LSS, token.LEQ:
+				lower = ret.Results[0]
+			}
+			if x.Else != nil {
+				if eb, ok := x.Else.(*ast.BlockStmt); ok && len(eb.List) == 1 {
+					if r2, ok := eb.List[0].(*ast.ReturnStmt); ok && len(r2.Results) == 1 {
+						if upper != nil && lower == nil {
+							lower = r2.Results[0]
+						} else if lower != nil && upper == nil {
+							upper = r2.Results[0]
+						}
+					}
+				}
+			}
+		case *ast.ReturnStmt:
+			if len(x.Results) == 1 {
+				if upper != nil && lower == nil {
+					lower = x.Results[0]
+				} else if lower != nil && upper == nil {
+					upper = x.Results[0]
+				}
+			}
+		}
+	}
+	if upper == nil || lower == nil {
+		return core.Ob("R-MIRROR", construct, site, f.FullName(), core.Violated, "unresolved anchor: the two return expressions of stToUV were not found")
+	}
+	var render func(e ast.Expr, mirror bool) string
+	render = func(e ast.Expr, mirror bool) string {
+		switch x := ast.Unparen(e).(type) {
+		case *ast.Ident:
+			if mirror && x.Name == param {
+				return "(1-" + param + ")"
+			}
+			return x.Name
+		case *ast.BasicLit:
+			return strings.TrimSuffix(x.Value, ".")
+		case *ast.BinaryExpr:
+			l, r := render(x.X, mirror), render(x.Y, mirror)
+			if x.Op == token.MUL && r < l {
+				l, r = r, l
+			}
+			return "(" + l + x.Op.String() + r + ")"
+		case *ast.UnaryExpr:
+			return "(" + x.Op.String() + render(x.X, mirror) + ")"
+		}
+		return "?" + types.ExprString(e)
+	}
+	// upper = K * (A - B)
+	split := func(e ast.Expr) (k ast.Expr, a, b ast.Expr, ok bool) {
+		m, isM := ast.Unparen(e).(*ast.BinaryExpr)
+		if !isM || m.Op != token.MUL {
+			return nil, nil, nil, false
+		}
+		for _, pair := range [][2]ast.Expr{{m.X, m.Y}, {m.Y, m.X}} {
+			if d, isD := ast.Unparen(pair[1]).(*ast.BinaryExpr); isD && d.Op == token.SUB {
+				return pair[0], d.X, d.Y, true
+			}
+		}
+		return nil, nil, nil, false
+	}
+	ku, au, bu, ok1 := split(upper)
+	kl, al, bl, ok2 := split(lower)
+	bad := "the lower branch of stToUV is not the upper branch with s replaced by 1-s and the subtraction reversed: the identity stToUV(1-s) == -stToUV(s) then holds only up to rounding, the corner shared by cells on two cube faces is computed one ulp apart on some of them, and that corner is contained by no loop or by two of the loops that tile the sphere"
+	if !ok1 || !ok2 {
+		return core.Ob("R-MIRROR", construct, site, f.FullName(), core.Violated, "the return expressions do not have the form K * (A - B): "+bad)
+	}
+	// the upper branch may itself be written with 1-s (and the lower with s): accept either direction
+	fwd := render(ku, false) == render(kl, false) && render(au, true) == render(bl, false) && render(bu, true) == render(al, false)
+	rev := render(ku, false) == render(kl, false) && render(al, true) == render(bu, false) && render(bl, true) == render(au, false)
+	if fwd || rev {
+		return core.Ob("R-MIRROR", construct, site, f.FullName(), core.Discharged, "upper "+types.ExprString(upper)+", lower "+types.ExprString(lower)+": mirror images under s -> 1-s with the subtraction reversed, so stToUV(1-s) == -stToUV(s) exactly")
+	}
+	return core.Ob("R-MIRROR", construct, site, f.FullName(), core.Violated, "upper "+types.ExprString(upper)+", lower "+types.ExprString(lower)+": "+bad)
+}
+
+
+// rawStepsArithmetic (after round-6 seed C01-r6m3, Advance rewritten as clamp(distanceFromBegin() + steps)): the step
+// count of Advance / AdvanceWrap is any int64. Both functions first bring it into the range of the level (comparing it
+// with the largest possible step, or reducing it modulo the curve length) and only then do arithmetic with it; a signed
+// + or - whose operand is the caller's value itself overflows for large counts, and the clamp that follows sees the
+// wrapped sum (Advance(MaxInt64) lands on Begin() instead of End()).
+func rawStepsArithmetic(c *core.Ctx) []core.Obligation {
+	var obs []core.Obligation
+	for _, name := range []string{"Advance", "AdvanceWrap"} {
+		construct := "CellID." + name + ":no-arithmetic-on-raw-steps"
+		fn := c.Fn("s2", "CellID", name)
+		if fn == nil || len(fn.Params) != 2 {
+			obs = append(obs, core.Ob("R-MIRROR", construct, "-", "", core.Violated, "unresolved anchor"))
+			continue
+		}
+		steps := fn.Params[1]
+		isRaw := func(v ssa.Value) bool {
+			if v == ssa.Value(steps) {
+				return true
+			}
+			// the spill slot of the parameter, reloaded before anything else was stored
+			return false
+		}
+		bad := ""
+		core.AllInstrs(fn, func(in ssa.Instruction) {
+			bo, ok := in.(*ssa.BinOp)
+			if !ok || (bo.Op != token.ADD && bo.Op != token.SUB && bo.Op != token.MUL) {
+				return
+			}
+			b, ok := bo.Type().Underlying().(*types.Basic)
+			if !ok || b.Info()&types.IsUnsigned != 0 || b.Info()&types.IsInteger == 0 {
+				return
+			}
+			if isRaw(bo.X) || isRaw(bo.Y) {
+				bad = c.Pos(bo.Pos())
+			}
+		})
+		if bad != "" {
+			obs = append(obs, core.Ob("R-MIRROR", construct, bad, core.FuncName(fn), core.Violated,
+				"the caller's step count enters a signed "+"addition/subtraction/multiplication at "+bad+" before it has been limited to the range of the level: for counts near the ends of int64 the result wraps around, the clamp that follows sees a negative (or small) value, and the cell returned is at the wrong end of the curve"))
+		} else {
+			obs = append(obs, core.Ob("R-MIRROR", construct, c.Pos(fn.Pos()), core.FuncName(fn), core.Discharged, "the step count is only compared or reduced (%) before any signed arithmetic uses it"))
+		}
+	}
 	return obs
 }
